@@ -497,7 +497,9 @@ pub fn triggers(src: &str, root: &SyntaxNode) -> Vec<&'static str> {
                     let first = whole.split(syn::is_nl).next().unwrap_or("");
                     let rest = first.trim_start_matches('`');
                     let tag_end = rest.find(|c: char| !(c.is_alphanumeric() || c == '_' || c == '-')).unwrap_or(rest.len());
-                    first.starts_with("```") && rest[tag_end..].chars().all(|c| c == ' ' || c == '\t')
+                    // (a language tag is an identifier: it cannot start with a digit or a hyphen)
+                    let tag_ok = rest[..tag_end].chars().next().map_or(true, |c| c.is_alphabetic() || c == '_');
+                    first.starts_with("```") && tag_ok && rest[tag_end..].chars().all(|c| c == ' ' || c == '\t')
                 };
                 let txt: String = if fence_line_is_tag_only {
                     match whole.char_indices().find(|(_, c)| syn::is_nl(*c)) {
